@@ -144,6 +144,15 @@ def pair_random(vd, tier, sd, tag, pollat=True, probe=False):
             a[a.index("--runs") + 1] = 60
         run_harness(exe, a)
         files.append(tf)
+    if tag in ("c01",):
+        # scaled-window edge runs (C01 only): a receive buffer just above 64 KiB, a stream of exactly the SYN-ACK's unscaled
+        # window with its FIN on the last segment, and a receiver that lets no acknowledgment out while its reader sleeps
+        tf = os.path.join(OUT, "traces", "tcp.pair.%s.edge.ndjson" % tag)
+        a = ["tcp-pair", "--seed", sd * 1000 + 700, "--runs", 120 if tier == "quick" else 800, "--out", tf, "--edge"]
+        if pollat:
+            a.append("--pollat")
+        run_harness(exe, a)
+        files.append(tf)
     if pollat and tag in ("c02",):
         # zero-window runs only (small receive buffer, sleeping reader, zero-window ACKs overtaken by the window update,
         # loss right after the window re-opens): the stall patterns C02 names live here
@@ -215,7 +224,7 @@ def replay_generic(obj, vd, prop):
             a.append("--pollat")
         flags = list(obj["ctx"].get("flags", []))
         ar = ev0.get("args", {})
-        for k in ("small", "probe", "zwr", "ackloss"):
+        for k in ("small", "probe", "zwr", "ackloss", "edge"):
             if ar.get(k) and "--" + k not in flags:
                 flags.append("--" + k)
         if ar.get("maxbytes") and ar["maxbytes"] != 20000:
